@@ -130,9 +130,10 @@ def directed_cases(tier):
         # the real observer threads (see run_live)
         for sc in LIVE_SCENARIOS:
             out.append({"live": sc, "method": method, "verbose": method == "move"})
-        # 250 ms files, window edges at T0 + 0.2 s and T0 + 1.1 s
+        # 250 ms files (the recording begins at T0 + 1.30 s: files T0 + 1.25, 1.5, 1.75, 2.0, ...), window edges at T0 + 1.4 s and
+        # T0 + 2.1 s - between two file times each
         out.append({"chans": [{"nfiles": 6, "gap_at": 3, "nmd": 3}], "steps": [dict(s_) for s_ in steps], "method": method,
-                    "xdev": False, "include_drf": True, "include_dmd": True, "start": T0 * 1000 + 200, "end": T0 * 1000 + 1100, "fault": None,
+                    "xdev": False, "include_drf": True, "include_dmd": True, "start": T0 * 1000 + 1400, "end": T0 * 1000 + 2100, "fault": None,
                     "naive": False, "F": 250})
     return out
 
